@@ -45,6 +45,7 @@ type Case struct {
 	Usr1After   int      `json:"usr1_after"`   // send SIGUSR1 after feeding this many chunks; -1 = never
 	FeedGapUs   int      `json:"feed_gap_us"`  // pause between chunks
 	Perturb     int      `json:"perturb"`      // perturbation plan number (0 = none)
+	SlowUs      int      `json:"slow_us,omitempty"` // every successful send takes this long (a slow upstream)
 	Procs       int      `json:"procs"`
 }
 
@@ -189,7 +190,15 @@ func (fc *fakeConn) SendChunk(chunk base.LogChunk, deadline time.Time) error {
 		}
 		return errFake
 	}
-	// ok (a "wrongid" outcome drawn by a send is an ok send)
+	// ok (a "wrongid" or "ackblock" outcome drawn by a send is an ok send)
+	if us := fc.h.cs.SlowUs; us > 0 {
+		select {
+		case <-time.After(time.Duration(us) * time.Microsecond):
+		case <-fc.closed:
+			fc.h.rec(Event{Kind: "send", Conn: fc.k, Chunk: chunk.ID, Res: "closed"})
+			return errFake
+		}
+	}
 	fc.mu.Lock()
 	fc.sent = append(fc.sent, chunk.ID)
 	fc.mu.Unlock()
@@ -225,7 +234,7 @@ func (fc *fakeConn) ReadChunkAck(deadline time.Time) (string, error) {
 	case o == "error":
 		fc.h.rec(Event{Kind: "ack", Conn: fc.k, Res: "err"})
 		return "", errFake
-	case o == "block":
+	case o == "block" || o == "ackblock": // "ackblock": only ACK reads hang, whatever else draws it succeeds
 		r := fc.waitClosedOrDeadline(deadline)
 		fc.h.rec(Event{Kind: "ack", Conn: fc.k, Res: r})
 		if r == "deadline" {
@@ -659,6 +668,24 @@ func buildCases(c *vkit.Ctx) []Case {
 			cs.Procs = []int{1, 2, 4, 16}[len(cases)%4]
 		}
 		cases = append(cases, cs)
+	}
+	// (0) soft reconnects (session max duration) meeting unacknowledged chunks: the upstream takes every chunk but answers no
+	// ACK for a while ("ackblock": sends succeed, ACK reads hang until the ACK time-out), with a session duration far below the
+	// ACK time-out; fast and slow sends. The graceful end of a session then finds chunks sent-but-unacknowledged in every
+	// place they can be (being waited for, queued for the acknowledger, still in the previous session's leftovers while the
+	// next session is re-sending them), and every one of them must be confirmed later or handed back at the stop.
+	for _, n := range []int{3, 6, 12} {
+		for _, slow := range []int{0, 4000} {
+			for _, k := range []int{n + 1, 2*n + 2, 3*n + 3} {
+				for _, stop := range []int{-1, n} {
+					sc := []string{"ok"}
+					for i := 0; i < k; i++ {
+						sc = append(sc, "ackblock")
+					}
+					add(Case{Script: sc, NChunks: n, AckMode: "byid", StopAfter: stop, MaxDurMs: 10, Usr1After: -1, SlowUs: slow})
+				}
+			}
+		}
 	}
 	// (1) exhaustive short scripts
 	maxLen := c.N(4, 6)
